@@ -28,28 +28,29 @@ Proof.
   intros s s' r T ks x [G I] H. cbn [stepr] in H. unfold step_pw_reply in H. chks H. okinv H.
   apply delivered_In in C0.
   destruct x as [m o | k |].
-  - repeat (rewrite ?fb_add_pwok, ?fb_add_kl; try rewrite fb_setn_ne by discriminate; try rewrite fb_incn_ne by discriminate).
-    destruct (N.eq_dec o 0) as [-> | Ho].
-    + cbn [N.eqb]. destruct (m =? 0), (fb (getc s T) FTried1).
-      all: split;
+  - match goal with |- context [if ?b then setn _ FMinc _ else _] => destruct b end;
+    (unfold onepc_on; repeat (rewrite ?fb_add_pwok, ?fb_add_kl; try rewrite fb_setn_ne by discriminate; try rewrite fb_incn_ne by discriminate);
+     destruct (N.eq_dec o 0) as [-> | Ho];
+     [ cbn [N.eqb]; destruct (m =? 0), (fb (getc s T) FTried1), (fb (getc s T) FFb1); cbn [andb negb];
+       (split;
         [ constructor; prep; useG G
         | intros Hh' Hc'; assert (Hm : hasm s T) by (unf2; rd; auto);
           assert (Hc : classic s T) by (classic_back Hc');
-          specialize (I Hm Hc); constructor; prep; useGI G I ].
-      all: try match goal with Hx : In _ (_ ++ _) |- _ => apply in_app_or in Hx; destruct Hx as [Hx | Hx] end.
-      all: try (exists r, ks, m, 0; split; auto; fail).
-      all: try match goal with |- pwdlv _ _ _ => eapply pwdlv_incl; [| eauto]; rd; apply incl_refl end.
-      all: try (apply in_or_app; right; eauto; fail).
-      all: t_some_rb s; t_Dn s; t_Dd s.
-    + apply N.eqb_neq in Ho. rewrite Ho. apply N.eqb_neq in Ho.
-      assert (HT1 : cn (getc s T) FTried1 <> 0) by (eapply g_1pc; eauto).
-      destruct (m =? 0).
-      all: split;
+          specialize (I Hm Hc); constructor; prep; useGI G I ]);
+       try match goal with Hx : In _ (_ ++ _) |- _ => apply in_app_or in Hx; destruct Hx as [Hx | Hx] end;
+       try (exists r, ks, m, 0; split; auto; fail);
+       try match goal with |- pwdlv _ _ _ => eapply pwdlv_incl; [| eauto]; rd; apply incl_refl end;
+       try (apply in_or_app; right; eauto; fail);
+       t_some_rb s; t_Dn s; t_Dd s
+     | apply N.eqb_neq in Ho; rewrite Ho; apply N.eqb_neq in Ho;
+       assert (HT1 : cn (getc s T) FTried1 <> 0) by (eapply g_1pc; eauto);
+       destruct (m =? 0);
+       (split;
         [ constructor; prep; useG G
-        | intros Hh' [_ [B _]]; exfalso; unf2; rd; auto ].
-      all: try match goal with Hx : In _ (_ ++ _) |- _ => apply in_app_or in Hx; destruct Hx as [Hx | Hx] end.
-      all: try (exists r, ks, m, o; split; auto; fail).
-      all: try match goal with |- pwdlv _ _ _ => eapply pwdlv_incl; [| eauto]; rd; apply incl_refl end.
+        | intros Hh' [_ [B _]]; exfalso; unf2; rd; auto ]);
+       try match goal with Hx : In _ (_ ++ _) |- _ => apply in_app_or in Hx; destruct Hx as [Hx | Hx] end;
+       try (exists r, ks, m, o; split; auto; fail);
+       try match goal with |- pwdlv _ _ _ => eapply pwdlv_incl; [| eauto]; rd; apply incl_refl end ]).
   - split;
       [ constructor; prep; useG G
       | intros Hh' Hc'; assert (Hm : hasm s T) by (unf2; rd; auto);
